@@ -141,6 +141,7 @@ func genDefer(r *vh.Rng, sfx string) (string, string) {
 	pan := []string{`"boom"`, `errors.New("e1")`, fmt.Sprint(lit(r)), `fmt.Sprintf("p%d", x)`}[r.Intn(4)]
 	fmt.Fprintf(&sb, "func g%s(x int) (res int) {\n\tdefer func() {\n\t\tif e := recover(); e != nil {\n\t\t\temits(fmt.Sprint(\"rec:\", e))\n\t\t\tres = -x\n\t\t}\n\t}()\n\tdefer func() { res *= 2; emit(res) }()\n\tif x %% %d == 0 {\n\t\tpanic(%s)\n\t}\n\tres = x + %d\n\treturn res\n}\n", sfx, 2+r.Intn(3), pan, r.Intn(9))
 	fmt.Fprintf(&sb, "func h%s(xs []int, i int) (v int) {\n\tdefer func() {\n\t\tif e := recover(); e != nil {\n\t\t\t_, isrt := e.(runtime.Error)\n\t\t\temits(fmt.Sprint(\"rt:\", isrt))\n\t\t\tv = -1\n\t\t}\n\t}()\n\tfor k := 0; k < 3; k++ {\n\t\tdefer emit(k)\n\t}\n\treturn xs[i] / (i - %d)\n}\n", sfx, r.Intn(4))
+	fmt.Fprintf(&sb, "type Np%s struct{ A int }\n", sfx)
 	fmt.Fprintf(&sb, "func run%s() int {\n\tv := 0\n\tfor i := 0; i < %d; i++ {\n\t\tv += g%s(i)\n\t}\n\tfor i := 0; i < 5; i++ {\n\t\tv += h%s([]int{%d, %d, %d}, i)\n\t}\n", sfx, 3+r.Intn(4), sfx, sfx, 10+r.Intn(90), 10+r.Intn(90), 10+r.Intn(90))
 	switch r.Intn(8) {
 	case 0:
@@ -148,7 +149,7 @@ func genDefer(r *vh.Rng, sfx string) (string, string) {
 	case 1:
 		fmt.Fprintf(&sb, "\tvar m map[string]int\n\tm[\"k\"] = v\n")
 	case 2:
-		fmt.Fprintf(&sb, "\tvar p *struct{ A int }\n\tdefer func() { emits(\"d2\") }()\n\tv += p.A\n")
+		fmt.Fprintf(&sb, "\tvar p *Np%s\n\tdefer func() { emits(\"d2\") }()\n\tv += p.A\n", sfx)
 	case 3:
 		fmt.Fprintf(&sb, "\tz := v - v\n\tv = v / z\n")
 	}
